@@ -398,6 +398,34 @@ func TableChild(t *Tree, dir string) *TableResult {
 	}
 	r.Findings, r.Compared = CheckTable(m, e)
 	r.Tasks = len(m.Insts)
+	// a parent with many include entries: the reader handles them concurrently, so the same tree is loaded again
+	// and again and every load must deliver the same, complete table
+	many := false
+	for _, f := range t.Files {
+		if len(f.Incs) >= 8 {
+			many = true
+		}
+	}
+	if many {
+		seen := map[string]bool{}
+		for _, f := range r.Findings {
+			seen[f.Sig+f.What] = true
+		}
+		for k := 0; k < 60; k++ {
+			e2, err := Setup(dir)
+			if err != nil {
+				r.Findings = append(r.Findings, Finding{"C08 | table.reload | error", fmt.Sprintf("load %d of the same tree failed although the first one succeeded: %v", k+2, err)})
+				break
+			}
+			fs, _ := CheckTable(m, e2)
+			for _, f := range fs {
+				if !seen[f.Sig+f.What] {
+					seen[f.Sig+f.What] = true
+					r.Findings = append(r.Findings, f)
+				}
+			}
+		}
+	}
 	fieldMu.Lock()
 	defer fieldMu.Unlock()
 	r.FieldCmp, r.FieldNonZero = fieldCmp, fieldNonZero
